@@ -461,7 +461,7 @@ def run(ctx):
                 avail = {m.stem.lower() for d in inc for m in Path(d).glob("*.mod")}
             files = [f for f in files if standalone_candidate(f, avail)]
             ctx.notes["files_candidates"] = len(files)
-            files = ctx.rng("files").sample(files, min(160, len(files)))
+            files = ctx.rng("files").sample(files, min(120, len(files)))
         else:
             files = [f for f in files if standalone_candidate(f)]
             files = ctx.rng("files").sample(files, min(10, len(files)))
